@@ -136,4 +136,22 @@ PROPS["C04"] = dict(
     assumptions=["keccak256 collision-free for the secure-trie keys (index keys are minimal big-endian, counter keys are 32-byte strings with leading zeros)"],
 )
 
+PROPS["C20"] = dict(
+    lean_modules=["QuaiVerif.Props.C20"],
+    areas=[dict(name="conv", n_quick=800, n_thorough=20000, seeds_thorough=3, n_search=3000)],
+    facts=["denominations", "conv_pipeline_fingerprint"],
+    rule="a case is one block context (PrimeTerminusNumber around the KawPow / SHA-equivalent / kQuai-reset forks or early, random number, difficulty, "
+         "exchange rate, share counts) with 6 amounts (0, dust, minimum conversion, 2^60..2^120, random) through the real QiToQuai / QuaiToQi both ways, "
+         "4 amounts through FindMinDenominations, 4 (value, mean) pairs (incl. value = mean, 10*mean, 10*mean+1) through ApplyCubicDiscount",
+    level_text="Round trips at a fixed rate never gain, monotonicity of unit conversion, 'repriced amount is between 10% of the original and the original', "
+               "'exactly one outcome (bounded conversion or full refund)' and 'denominations sum exactly' are Lean theorems; the denomination table and a "
+               "fingerprint of the prime repricing block are regenerated from source; QiToQuai / QuaiToQi / FindMinDenominations are run against the model.",
+    level_note="PARTIAL: the prime repricing pipeline (sort by slip, running amounts, token-choice set, new exchange rate) is inline in Slice.Append and is tied "
+               "to the hand-written model only by a source fingerprint (any change to that block breaks C20_conv_pipeline_unchanged and is reported "
+               "no-failing-input-found) until the level-isolation harness exists. ApplyCubicDiscount (big.Float) is a parameter of the theorems with the "
+               "hypothesis D <= A, which the harness checks on the real function. Origin debit (C05/C01) and destination minting/lock (C13) are those properties' checks.",
+    assumptions=["cubic discount returns at most its argument (checked by T3)", "k-quai discount <= KQuaiDiscountMultiplier (header field range)",
+                 "after the kQuai reset fork block difficulty exceeds KQuaiDifficultyDivisor (else CalculateQuaiReward is negative)"],
+)
+
 NOT_APPLICABLE = {}
